@@ -105,6 +105,21 @@ def alias_intact(iterator_name):
     xnew2, _ = it(f2, 0.0, x2, upd)
     out["stored"] = bool(np.array_equal(bvec, bkeep))
     out["step_stored"] = bool(np.allclose(xnew2, h * bkeep, rtol=1e-13, atol=0))
+    # (3) f fills ONE preallocated work array and hands it back on every call (x' = x, and the non-autonomous x' = t^3)
+    buf = np.zeros(2)
+    def f3(t, X, first=False):
+        buf[:] = X
+        return (buf, h) if first else buf
+    x3 = np.array([1.0, 2.0])
+    xnew3, _ = it(f3, 0.0, x3, upd)
+    out["step_workbuf"] = bool(np.allclose(xnew3, exact, rtol=1e-13, atol=0) and np.array_equal(x3, keep))
+    buf4 = np.zeros(1)
+    def f4(t, X, first=False):
+        buf4[:] = t ** 3
+        return (buf4, h) if first else buf4
+    xnew4, _ = it(f4, 1.0, np.zeros(1), upd)
+    want4 = ((1 + h) ** 4 - 1) / 4 if iterator_name == "rk4" else h
+    out["step_workbuf_t"] = bool(np.allclose(xnew4, want4, rtol=1e-13, atol=0))
     return out
 
 
